@@ -10,7 +10,7 @@ from . import streambase as sb
 ID = 'C14'
 LEVEL = 'fault_enumeration'
 RULE = ('for each sampled (scenario, plan) the fault-free run yields A allocator calls and R read calls; then EVERY allocator call k <= A is made '
-        'to fail (one per run), and on the stdio input paths (fread and interactive getc, through a simulated FILE*) EVERY read index j <= R '
+        'to fail (one per run), and on the three input paths of the skeleton (fread and interactive getc through a simulated FILE*, and read(2) of %option read through a link-free redefinition of read/fileno) EVERY read index j <= R '
         'gets an EIO, and every j an EINTR followed by a successful retry.  Oracle: after a failed allocation the next thing the instance does '
         'is the documented error return (yylex_init/yylex_init_extra non-zero with errno ENOMEM, yytables_fload non-zero) or the fatal-error '
         'hook - no token, no further read or allocation, no sanitizer report; EIO -> fatal hook; EINTR -> the same tokens as the fault-free run. '
@@ -20,10 +20,10 @@ TIERS = {
     'thorough': {'scenarios': 500, 'plans': 10, 'wall_cap': 3300},
 }
 COMPONENTS = sb.COMPONENTS
-ASSUMPTIONS = ['EINTR/EIO are injected at the fopencookie read callback, not by real signals; the read(2) path (-Cr) is not driven',
+ASSUMPTIONS = ['EINTR/EIO are injected at the fopencookie read callback and at the redefined read() of -Cr scanners, not by real signals',
                'new[] failure in the C++ lexer is not routed through yyalloc and is out of reach']
 EXPECTED_PROBES = []
-CLASSES = {'absorbed-alloc-failure', 'wrong-error-return', 'eio-absorbed', 'eintr-changed-tokens', 'eintr-fatal-fread', 'eintr-fatal-getc',
+CLASSES = {'absorbed-alloc-failure', 'wrong-error-return', 'eio-absorbed', 'eintr-changed-tokens', 'eintr-fatal-fread', 'eintr-fatal-getc', 'eintr-fatal-read',
            'sanitizer', 'crash', 'hang'}
 
 
@@ -167,6 +167,10 @@ def work(ctx, idx):
     sc_s._matchers = {}
     sc_s.user_input = False
     bs = ctx.build(sc_s)
+    sc_r = copy.copy(sc_s)
+    sc_r._matchers = {}
+    sc_r.use_read = True          # %option read: yyread() is read(fileno(yyin), ...)
+    br = ctx.build(sc_r)
     if not b.ok or not bs.ok:
         if b.stage == 'flex' or bs.stage == 'flex':
             wr.refused += 1
@@ -217,9 +221,13 @@ def work(ctx, idx):
                 wr.samples.append({'scenario': idx, 'flex_args': sc.flex_args(), 'plan_text': p.text().split('\n')[:12],
                                    'allocation_points_enumerated': pts[:20]})
         # ---- read faults on the stdio paths
-        for interactive in (False, True):
-            rp = read_plan(prng, sc_s, interactive)
-            cl = common.run_one(bs.exe, rp.text())
+        for mode in ('fread', 'getc', 'read'):
+            interactive = mode == 'getc'
+            if mode == 'read' and not br.ok:
+                continue
+            bx, scx = (br, sc_r) if mode == 'read' else (bs, sc_s)
+            rp = read_plan(prng, scx, interactive)
+            cl = common.run_one(bx.exe, rp.text())
             if sb.status_class(cl) is not None or any(ev['k'] == 'F' for ev in cl.events):
                 continue
             nreads = sum(1 for ev in cl.events if ev['k'] == 'R')
@@ -228,7 +236,7 @@ def work(ctx, idx):
             for jj in range(nreads):
                 batch.append(('x%d' % jj, with_read_fault(rp, cl, jj, 'X'), 'X'))
                 batch.append(('i%d' % jj, with_read_fault(rp, cl, jj, 'I'), 'I'))
-            res = common.run_batch(bs.exe, [(k, q.text()) for k, q, _ in batch]) if batch else {}
+            res = common.run_batch(bx.exe, [(k, q.text()) for k, q, _ in batch]) if batch else {}
             for k, q, kind in batch:
                 r = res.get(k)
                 if r is None:
@@ -237,21 +245,21 @@ def work(ctx, idx):
                 fired = any(ev['k'] == 'R' and ('EIO' in ev.get('flags', []) or 'EINTR' in ev.get('flags', [])) for ev in r.events)
                 if not fired:
                     continue
-                wr.nontrivial.add((idx, j, interactive, k))
+                wr.nontrivial.add((idx, j, mode, k))
                 wr.hashes.add(r.loghash())
-                wr.stats['fault:' + ('EIO' if kind == 'X' else 'EINTR') + ('-getc' if interactive else '-fread')] += 1
+                wr.stats['fault:' + ('EIO' if kind == 'X' else 'EINTR') + '-' + mode] += 1
                 st = sb.status_class(r)
-                case = Case(ID, sc_s, q, meta={'scn': idx, 'kind': 'read', 'interactive': interactive, 'clean': rp.to_json()})
+                case = Case(ID, scx, q, meta={'scn': idx, 'kind': 'read', 'interactive': interactive, 'mode': mode, 'clean': rp.to_json()})
                 if st in ('sanitizer', 'crash', 'hang'):
                     report(st, sb.san_summary(r.stderr) if st == 'sanitizer' else 'process ended with %s' % r.status, case, 'scn %d %s' % (idx, k))
                     continue
-                v = judge_read(kind, interactive, base, r)
+                v = judge_read(kind, interactive, base, r, mode)
                 if v is not None:
                     report(v.cls, v.detail, case, 'scn %d plan %d %s' % (idx, j, k), v.seq)
     return wr
 
 
-def judge_read(kind, interactive, base, r):
+def judge_read(kind, interactive, base, r, mode=None):
     toks = tokens_of(r)
     fat = [t for t in toks if t[0] == 'F']
     if kind == 'X':
@@ -260,7 +268,7 @@ def judge_read(kind, interactive, base, r):
             return model.Viol('eio-absorbed', -1, 'a read error (EIO) was not reported through the fatal-error hook')
         return None
     if fat:
-        return model.Viol('eintr-fatal-getc' if interactive else 'eintr-fatal-fread', -1,
+        return model.Viol('eintr-fatal-read' if mode == 'read' else 'eintr-fatal-getc' if interactive else 'eintr-fatal-fread', -1,
                           'a read interrupted by a signal (EINTR) and then retried made the scanner stop with: %s' % fat[0][1])
     if toks != base:
         n = min(len(toks), len(base))
@@ -292,7 +300,7 @@ def evaluate(ctx, case):
     fired = any(ev['k'] == 'R' and ('EIO' in ev.get('flags', []) or 'EINTR' in ev.get('flags', [])) for ev in r.events)
     if not fired or any(ev['k'] == 'F' for ev in cl.events):
         return [], {'main': r, 'clean': cl}
-    v = judge_read(kind, case.meta.get('interactive'), tokens_of(cl), r)
+    v = judge_read(kind, case.meta.get('interactive'), tokens_of(cl), r, case.meta.get('mode'))
     return ([v] if v is not None else []), {'main': r, 'clean': cl}
 
 
